@@ -71,6 +71,16 @@ def step (line : String) : String :=
       | some bs => showBytes bs
       | none => "none"
     | none => "bad-args"
+  | ["FV", path, vt, at_, n, old] =>
+    -- FV <path 0 put|1 typed|2 def_var_fill|3 copy other file same var|4 copy other file other var|5 copy same file other var|6 self copy|7 rename> …
+    match nats [path, vt, at_, n, old] with
+    | some [path, vt, at_, n, old] =>
+      let ps : List FvPath := [.putAtt, .putAttTyped, .defVarFill, .copyAtt false true, .copyAtt false false,
+                               .copyAtt true false, .copyAtt true true, .renameAtt]
+      match ps[path]? with
+      | some p => toString (fvAccept p vt at_ n (old != 0))
+      | none => "bad-args"
+    | _ => "bad-args"
   | "FM" :: ops =>
     match ops.mapM parseFOp with
     | some ops =>
